@@ -9,7 +9,7 @@ import itertools
 from .common import clause, Skip, LABELS, INT_COEFS, gen_models, all_small_models
 from .c02 import (RELS, LAMS, QUICK_BITS, THOROUGH_BITS, run_penalty_case, true_range, case_bits, both_outcomes,
                   _to_bool, _special_polys, _gen_valid, run_valid_case, _nontrivial_valid, _gen_sequence,
-                  run_sequence_case, anc_estimate, sum_enclosure, with_copies, with_argtypes)
+                  run_sequence_case, anc_estimate, sum_enclosure, with_copies, with_argtypes, with_forks)
 
 
 def to_spin(terms):
@@ -218,4 +218,12 @@ def check_valid_argedits(case):
     caller edits in place after the call: is_solution_valid still decides the constraints as they were added."""
     if case["argtype"] == "QUSO" and any(len(k) > 2 for _, P, _, _ in case["cons"] for k in P):
         return Skip("degree > 2 polynomial cannot be a QUSO")
+    return run_valid_case(case, "PCSO", spin=True)
+
+
+@clause("C03.is_solution_valid_forked_copies", "C03", gen=with_forks(_gen_valid_spin),
+        nontrivial=lambda c: _nontrivial_valid(c, spin=True))
+def check_valid_forks(case):
+    """C03.is_solution_valid for a PCSO from which a copy was forked; one of the two then gets one more constraint of
+    a relation already recorded: the verdicts of the other stay those of its own constraints."""
     return run_valid_case(case, "PCSO", spin=True)
